@@ -746,6 +746,116 @@ def audit5_cases(chk):
         if not ok:
             violation('hand-written R{u8 n; u8 a<3>@n}', 'a[:] = [1, 2]; a.%s(<int subclass whose __int__ appends to a>)' % how,
                       'the array holds %d elements, its limit is 3 (or its own encoding is refused)' % len(r5.a))
+    # audit round 8 (D199, D200): objects that answer differently each time they are asked - subclasses of int / float / bytes with
+    # their own __int__, __float__, __len__, comparisons and hash, index objects with a moving __index__, objects that claim a
+    # class through __class__ - never take a message out of its valid states: whatever is accepted encodes, and its encoding decodes
+    from unittest import mock
+    EH = type(prophy.with_metaclass(prophy.enum_generator, prophy.enum))('EH5', (prophy.with_metaclass(prophy.enum_generator, prophy.enum),),
+                                                                          {'_enumerators': [('EH_One', 1), ('EH_Two', 2)]})
+    UH = type(ub)('UH5', (ub,), {'_descriptor': [('a', prophy.u8, 0), ('bb', prophy.bytes(size=2), 1)]})
+    Hh = type(sb)('Hh5', (sb,), {'_descriptor': [('a', prophy.u8), ('f', prophy.r32), ('d', prophy.r64), ('e', EH), ('o', prophy.optional(prophy.u8)),
+                                                 ('fx', prophy.array(prophy.u8, size=4)), ('n', prophy.u8), ('lim', prophy.array(prophy.u8, bound='n', size=3)),
+                                                 ('es_n', prophy.u8), ('es', prophy.array(EH, bound='es_n')), ('b4', prophy.bytes(size=4)),
+                                                 ('m', prophy.u8), ('bl', prophy.bytes(size=3, bound='m')), ('k', prophy.u8), ('bd', prophy.bytes(bound='k')),
+                                                 ('u', UH)]})
+
+    class OtherInt(int):
+        def __int__(self):
+            return 300
+        __index__ = __int__
+
+    class AlwaysInRange(int):
+        def __le__(self, other):
+            return True
+        __ge__ = __lt__ = __gt__ = __le__
+
+    class OtherFloat(float):
+        def __float__(self):
+            return 1e300
+
+    class SmallAsFloat(int):
+        def __float__(self):
+            return 0.0
+
+    class LooksLikeOne(int):
+        def __hash__(self):
+            return hash(1)
+
+        def __eq__(self, other):
+            return other == 1
+
+    class Short(bytes):
+        def __len__(self):
+            return 0
+
+    class Cursor(object):
+        def __init__(self, *answers):
+            self.answers = list(answers)
+
+        def __index__(self):
+            return self.answers.pop(0) if len(self.answers) > 1 else self.answers[0]
+
+    def appending_index(x):
+        class Idx(object):
+            def __index__(self):
+                x.lim.append(9)
+                return 0
+        return Idx()
+
+    def nested(depth):
+        v = []
+        for _ in range(depth):
+            v = [v]
+        return v
+    hostile = [
+        ('a = <int subclass whose __int__ answers 300>(5)', lambda x: setattr(x, 'a', OtherInt(5))),
+        ('a = <int subclass whose comparisons answer True>(300)', lambda x: setattr(x, 'a', AlwaysInRange(300))),
+        ('o = <int subclass whose __int__ answers 300>(5)', lambda x: setattr(x, 'o', OtherInt(5))),
+        ('fx[1] = <int subclass whose comparisons answer True>(300)', lambda x: x.fx.__setitem__(1, AlwaysInRange(300))),
+        ('lim.append / insert / extend / slice of such numbers', lambda x: (x.lim.append(OtherInt(5)), x.lim.insert(0, OtherInt(6)), x.lim.__setitem__(slice(0, 1), [OtherInt(7)]))),
+        ('lim.extend([<comparisons answer True>(300)])', lambda x: x.lim.extend([AlwaysInRange(300)])),
+        ('u.a = <int subclass whose __int__ answers 300>(5)', lambda x: setattr(x.u, 'a', OtherInt(5))),
+        ('f = <float subclass whose __float__ answers 1e300>(1.0)', lambda x: setattr(x, 'f', OtherFloat(1.0))),
+        ('d = <int subclass whose __float__ answers 0.0>(10**400)', lambda x: setattr(x, 'd', SmallAsFloat(10 ** 400))),
+        ('e = <int subclass whose __int__ answers 300>(1)', lambda x: setattr(x, 'e', OtherInt(1))),
+        ('e = <int subclass that hashes and compares like 1>(77)', lambda x: setattr(x, 'e', LooksLikeOne(77))),
+        ('es.append(<int subclass whose __int__ answers 300>(2))', lambda x: x.es.append(OtherInt(2))),
+        ('b4 = <bytes subclass whose __len__ answers 0>(8 bytes)', lambda x: setattr(x, 'b4', Short(b'abcdefgh'))),
+        ('bl = <bytes subclass whose __len__ answers 0>(8 bytes)', lambda x: setattr(x, 'bl', Short(b'abcdefgh'))),
+        ('bd = <bytes subclass whose __len__ answers 0>(300 bytes)', lambda x: setattr(x, 'bd', Short(b'x' * 300))),
+        ('u.discriminator = 1; u.bb = <bytes subclass whose __len__ answers 0>(8 bytes)', lambda x: (setattr(x.u, 'discriminator', 1), setattr(x.u, 'bb', Short(b'abcdefgh')))),
+        ('fx[<index answering 2, then 0>:] = [1, 2]', lambda x: x.fx.__setitem__(slice(Cursor(2, 0), None), [1, 2])),
+        ('lim[<index answering 0, then 3>:] = [7, 8, 9]', lambda x: (x.lim.extend([1, 2, 3]), x.lim.__setitem__(slice(Cursor(0, 3), None), [7, 8, 9]))),
+        ('lim.insert(<index whose __index__ appends to lim>, 5)', lambda x: (x.lim.extend([1, 2]), x.lim.insert(appending_index(x), 5))),
+        ('u.discriminator = <list nested 3000 deep>', lambda x: setattr(x.u, 'discriminator', nested(3000))),
+        ('a = Mock(spec=int)', lambda x: setattr(x, 'a', mock.Mock(spec=int))),
+        ('lim.append(MagicMock(spec=int))', lambda x: x.lim.append(mock.MagicMock(spec=int))),
+        ('u.discriminator = Mock(spec=int)', lambda x: setattr(x.u, 'discriminator', mock.Mock(spec=int))),
+        ('b4 = MagicMock(spec=bytes)', lambda x: setattr(x, 'b4', mock.MagicMock(spec=bytes))),
+        ('f = MagicMock(spec=float)', lambda x: setattr(x, 'f', mock.MagicMock(spec=float))),
+    ]
+    hschema = ('hand-written EH{EH_One=1, EH_Two=2}; UH{0: u8 a; 1: bytes bb[2]}; H{u8 a; r32 f; r64 d; EH e; u8* o; u8 fx[4]; u8 n; u8 lim<3>@n; '
+               'u8 es_n; EH es<@es_n>; bytes b4[4]; u8 m; bytes bl<3>@m; u8 k; bytes bd<@k>; UH u}')
+    for how, act in hostile:
+        case(('hostile object', how))
+        x = Hh()
+        try:
+            act(x)
+        except prophy.ProphyError:
+            pass
+        except Exception as ex:  # noqa
+            violation(hschema, how, 'raised %s instead of ProphyError' % py_impl.exc_class(ex))
+            continue
+        try:
+            enc = x.encode('<')
+            text = str(x)
+            back = Hh()
+            ok = back.decode(enc, '<') == len(enc) and back.encode('<') == enc and str(back) == text
+            why = 'its own encoding decodes to another message'
+        except Exception as ex:  # noqa
+            ok, why = False, 'the message no longer encodes / prints / decodes its own encoding: %s' % py_impl.exc_class(ex)
+        if not ok:
+            violation(hschema, how, why)
     # D192: an index beyond the machine word is an index beyond the ends
     case(('insert', 'huge index'))
     a5 = A()
